@@ -104,29 +104,35 @@ def cross_execution(ctx):
     for length in (2, 3):
         seqs = list(itertools.product(range(3), [f, fs], repeat=length))
         if length == 3 and ctx.tier == "quick":
-            seqs = ctx.rng.sample(seqs, 30)
+            seqs = ctx.rng.sample(seqs, 16)
         for seq in seqs:
+          # the context comes from update_context on the call, or is the execution-wide context of Scheduler.run(context=...)
+          for how in ("call", "exec"):
             steps = [(seq[2 * i], seq[2 * i + 1]) for i in range(length)]
             sched = ctl_sched.make_scheduler(None)
             got = []
             for ci, t in steps:
                 c = contexts[ci]
-                call = t.update_context(c)() if c else t()
                 try:
-                    got.append(sched.run(call))
+                    if how == "call":
+                        got.append(sched.run(t.update_context(c)() if c else t()))
+                    else:
+                        got.append(sched.run(t(), context=c))
                 except Exception as e:  # noqa: BLE001
                     got.append("!" + type(e).__name__)
             exp = [contexts[ci].get("a", 0) for ci, _ in steps]
             n += 1
             distinct_ctx = len({ci for ci, _ in steps}) > 1
-            ctx.case(key=("xexec", tuple((ci, t.name) for ci, t in steps)) if distinct_ctx else None,
-                     sample={"executions": [(contexts[ci], t.name) for ci, t in steps], "results": got}, kind="cross-execution")
+            ctx.case(key=("xexec", how, tuple((ci, t.name) for ci, t in steps)) if distinct_ctx else None,
+                     sample={"executions": [(contexts[ci], t.name) for ci, t in steps], "context_from": how, "results": got},
+                     kind="cross-execution")
             if got != exp:
                 bad = next(i for i in range(length) if got[i] != exp[i])
                 sig = KNOWN_SIG if not contexts[steps[bad][0]] else "C05-result-shared-across-contexts"
                 reproduced = reproduced or sig == KNOWN_SIG
                 ctx.violation(sig, "a later execution returned the value computed under a different context",
-                              case={"executions": [(contexts[ci], t.name) for ci, t in steps]}, expected=exp, actual=got, kind="history")
+                              case={"executions": [(contexts[ci], t.name) for ci, t in steps], "context_from": how}, expected=exp, actual=got,
+                              kind="history")
     return reproduced
 
 
